@@ -92,7 +92,8 @@ PROPS = {
     "C15": dict(
         units=["pending"],
         undecided=["real atomics / locks are sequentialised (in production ack, replicated and the counters are all touched under the outer pending_opps write lock)",
-                   "end-to-end observation through the cluster (rp / ack handlers in the dispatcher, replication thread)"],
+                   "end-to-end observation through the cluster (the `ack` handler's closure IS verified - op_acknowledge: the accounting step, whatever the node's role; the rp handler "
+                   "and the replication thread's dispatch are covered by the bounded family logthread only)"],
         assumptions=["call-site condition of register_pending_opp: an operation is handed to a node at most once while that node still owes its acknowledgement - now PROVED at "
                      "its two call sites (replicate_message_to_all / replicate_message_to_secoundary, which are verified to register an operation for exactly the members "
                      "they hand it to: every other member, resp. every other member marked Secoundary, never this node itself); what remains assumed there: an operation id "
@@ -250,7 +251,7 @@ PROPS = {
         reachable={"delivery": ["Database::notify_watchers", "Database::send_message_to_arbiter_client", "Database::remove_value"], "outbox": ["process_request", "replicate_change", "replicate_request", "get_replicate_message", "get_replicate_remove_message", "get_replicate_increment_message", "get_resolve_message"], "members": ["Databases::add_cluster_member", "Databases::promote_member", "Databases::remove_cluster_member"], "oplogflag": ["invalidate_oplog", "mark_op_log_as_valid", "snapshot_keys", "generate_key_id", "arm_replicate_set", "arm_replicate_increment", "arm_replicate_remove"], "replies": ["get_key_value", "get_key_value_safe", "arm_get", "arm_get_safe", "arm_keys"], "permissions": ["Permission::from", "Permission::permissions_from_str", "From<char>@PermissionKind::from", "has_permission"], "listing": ["Database::list_keys", "filter_system_keys", "get_function_by_pattern", "starts_with", "ends_with", "contains", "Database::list_conflicts_keys",
                                "Database::has_pendding_conflict", "Database::register_arbiter"], "sync": ["make_create_db_command", "get_full_sync_opps", "get_pendding_opps_since"], "snapshot": ["get_keys_to_update", "write_metadata_file", "load_db_metadata_from_disk_or_empty", "ConsensuStrategy::to_le_bytes", "From<i32>@ConsensuStrategy::from", "NodeDrive::storage_data_disk", "write_value", "write_key", "update_key", "write_new_key_value", "get_key_disk_size", "create_db_from_file_name", "ValueStatus::to_le_bytes"], "http": ["process_commands"], "election": ["op_set_primary", "op_set_scoundary", "election_eval", "start_election", "start_new_election", "election_win", "Databases::get_role", "Databases::is_eligible", "Databases::is_primary", "From<usize>@ClusterRole::from"], "store": STORE_FNS, "security": SECURITY_FNS, "pending": ["ReplicationMessage::new", "ReplicationMessage::ack", "ReplicationMessage::replicated", "ReplicationMessage::is_full_acknowledged",
                    "ReplicationMessage::count_replication", "ReplicationMessage::count_acknowledged", "ReplicationMessage::get_copy", "Databases::register_pending_opp",
-                   "Databases::acknowledge_pending_opp", "Databases::get_pending_opp_copy", "replicate_message_to_all", "replicate_message_to_secoundary"],
+                   "Databases::acknowledge_pending_opp", "Databases::get_pending_opp_copy", "replicate_message_to_all", "replicate_message_to_secoundary", "op_acknowledge"],
                    "parser": PARSER_FNS, "sessions": ["Database::inc_connections", "Database::dec_connections", "Database::connections_count", "release_previous_db",
                    "Client::left", "Client::selected_db_name", "arm_use_db"], "oplog": ["read_operations_since", "read_operations_since_from_file", "Oplog::last_op_time", "Oplog::write_op_log", "Oplog::try_write_op_log", "ReplicateOpp::to_u8", "From<u8>@ReplicateOpp::from", "OpLogRecord::new"], "ids": ["generate_key_id", "create_temp_db", "Databases::add_database", "Databases::next_db_id"], "consensus": ["op_set", "op_remove", "op_increment", "Database::try_resolve_conflict_response", "apply_change_to_db_try_fix_conflicts",
                    "set_key_value", "Database::resolve_conflit", "Database::has_arbiter_connected", "Change::new"]},
